@@ -50,6 +50,9 @@ var grantCatalog = [][]grant{
 	6: {{"a", []string{".*"}, []string{"publish", "subscribe"}}},
 	7: {{"^t[ab]$", []string{"^c"}, []string{"subscribe"}}},
 	8: {{"^tb$", []string{".*"}, []string{"publish"}}, {"^tb$", []string{"^d1$"}, []string{"subscribe"}}},
+	// a subscribe grant that names no channel allows no channel (empty list, and no list at all)
+	9:  {{"^ta$", []string{}, []string{"subscribe"}}, {"^tb$", []string{".*"}, []string{"publish"}}},
+	10: {{"^t[ab]$", nil, []string{"subscribe"}}, {"^tc$", []string{"^c2$"}, []string{"subscribe"}}},
 }
 
 var polTopics = []string{"ta", "tb", "tc"}
